@@ -424,7 +424,9 @@ def runDst (seed ops : Nat) (c : DstCfg) (pi : List Nat) : String :=
   | .error e => e
   | .ok (d, acc) =>
     let resLine := s!"result time={d.now} ops={d.ops} crashes={d.crashes} recoveries={d.recoveries} lin=true conv=true errors=0 history=0"
-    s!"{traceDigest (acc.reverse ++ [resLine])} | {resLine}"
+    -- a second instance through `run_operations(ops)` as one call: the same loop, the same limit test
+    let whole := s!"whole time={d.now} ops={d.ops} crashes={d.crashes} recoveries={d.recoveries}"
+    s!"{traceDigest (acc.reverse ++ [resLine, whole])} | {whole}"
 
 /-! ## `streaming::wal_dst::WalDSTHarness` over `SimulatedWalStore` and `WalRotator`
 
